@@ -1074,6 +1074,12 @@ func (c *cluster) handleNodeAction(nodeAction nodeAction) error {
 	switch jobResult {
 	case resizeJobStateDone:
 		if err := c.completeCurrentJob(resizeJobStateDone); err != nil {
+			// The job was aborted (ResizeAbort) after it delivered its
+			// result: leave the node list alone and let the cluster go
+			// back to NORMAL.
+			if errors.Cause(err) == ErrResizeNotRunning {
+				return nil
+			}
 			return errors.Wrap(err, "completing finished job")
 		}
 		// Add/remove uri to/from the cluster.
@@ -1087,7 +1093,8 @@ func (c *cluster) handleNodeAction(nodeAction nodeAction) error {
 			return c.addNode(nodeAction.node)
 		}
 	case resizeJobStateAborted:
-		if err := c.completeCurrentJob(resizeJobStateAborted); err != nil {
+		// ErrResizeNotRunning means ResizeAbort already completed the job.
+		if err := c.completeCurrentJob(resizeJobStateAborted); err != nil && errors.Cause(err) != ErrResizeNotRunning {
 			return errors.Wrap(err, "completing aborted job")
 		}
 	}
@@ -1273,6 +1280,8 @@ func (c *cluster) unprotectedCompleteCurrentJob(state string) error {
 	}
 	verifPoint("cluster.job.complete", uint64(c.currentJob.ID), verifStr(state))
 	c.currentJob.setState(state)
+	// Wake handleNodeAction if it is still waiting for this job (ResizeAbort).
+	c.currentJob.sendResult(state)
 	c.currentJob = nil
 	return nil
 }
@@ -1399,11 +1408,8 @@ func (c *cluster) markResizeInstructionComplete(complete *ResizeInstructionCompl
 	defer verifPoint("cluster.mric.exit", uint64(complete.JobID), 0)
 
 	j := c.job(complete.JobID)
-
-	// Abort the job if an error exists in the complete object.
-	if complete.Error != "" {
-		j.result <- resizeJobStateAborted
-		return errors.New(complete.Error)
+	if j == nil {
+		return fmt.Errorf("resize job %d not found", complete.JobID)
 	}
 
 	j.mu.Lock()
@@ -1413,11 +1419,17 @@ func (c *cluster) markResizeInstructionComplete(complete *ResizeInstructionCompl
 		return fmt.Errorf("resize job %d is no longer running", j.ID)
 	}
 
+	// Abort the job if an error exists in the complete object.
+	if complete.Error != "" {
+		j.sendResult(resizeJobStateAborted)
+		return errors.New(complete.Error)
+	}
+
 	// Mark host complete.
 	j.IDs[complete.Node.ID] = true
 
 	if !j.nodesArePending() {
-		j.result <- resizeJobStateDone
+		j.sendResult(resizeJobStateDone)
 	}
 
 	return nil
@@ -1473,8 +1485,18 @@ func newResizeJob(existingNodes []*Node, node *Node, action string) *resizeJob {
 		ID:     rand.Int63(),
 		IDs:    ids,
 		action: action,
-		result: make(chan string),
+		result: make(chan string, 1),
 		Logger: logger.NopLogger,
+	}
+}
+
+// sendResult hands the job's result to handleNodeAction without ever
+// blocking: the channel holds one value and only the first result counts.
+// Results of duplicate or late messages are dropped.
+func (j *resizeJob) sendResult(state string) {
+	select {
+	case j.result <- state:
+	default:
 	}
 }
 
@@ -1495,14 +1517,14 @@ func (j *resizeJob) run() error {
 	// Job can be considered done in the case where it doesn't require any action.
 	if !j.nodesArePending() {
 		j.Logger.Printf("resizeJob contains no pending tasks; mark as done")
-		j.result <- resizeJobStateDone
+		j.sendResult(resizeJobStateDone)
 		return nil
 	}
 
 	j.Logger.Printf("distribute tasks for resizeJob")
 	err := j.distributeResizeInstructions()
 	if err != nil {
-		j.result <- resizeJobStateAborted
+		j.sendResult(resizeJobStateAborted)
 		return errors.Wrap(err, "distributing instructions")
 	}
 	return nil
